@@ -70,7 +70,8 @@ compare_pair!(c39_q_compare_int16_int64, i16, Variant::Int16, i64, Variant::Int6
 // (pairs whose conversion succeeds for some values and fails for others — UInt32/Int32, Int64/UInt64 — make the
 // converted Variant's discriminant symbolic and ended in solver errors after 6 min; the failing-conversion behaviour is
 // decided on the always-failing pairs below instead)
-compare_pair!(c39_t_compare_int32_double, i32, Variant::Int32, f64, Variant::Double, |a, b| !b.is_nan(), |x, y| (x as f64) < y, |p, q| p as f64 == q);
+// (NaN operands are excluded: Part 4 does not say how NaN compares, and the implementation orders it as GreaterThan)
+compare_pair!(c39_t_compare_int32_double, i32, Variant::Int32, f64, Variant::Double, |a, b| { kani::assume(!b.is_nan()); true }, |x, y| (x as f64) < y, |p, q| p as f64 == q);
 compare_pair!(c39_t_compare_byte_uint16, u8, Variant::Byte, u16, Variant::UInt16, |a, b| true, |x, y| (x as u16) < y, |p, q| p as u16 == q);
 
 /// A numeric literal against a non-numeric one (no implicit conversion exists) and against NULL: FALSE, never a panic.
